@@ -351,3 +351,38 @@ package server
 //@   ensures adminConfigured: err == nil ==> sameSlice(sta.AdminUID, preParse.AdminUID)
 //@   flag noframe
 //@   loop 0 invariant none: sta != nil && sta.BypassUID != nil && fresh(sta) && (len(preParse.BypassUID) == 0 ==> mapLen(sta.BypassUID) == 0)
+
+// ---------------------------------------------------------------------------------------------
+// C10: the server's first flight is ServerHello | ChangeCipherSpec | one application-data record
+// ---------------------------------------------------------------------------------------------
+//@ func addRecordLayer
+//@   requires len(typ) >= 1 && len(ver) >= 2 && len(input) <= 65535
+//@   ensures shape: len(ret0) == 5 + len(input) && fresh(ret0)
+//@   ensures header: ret0[0] == typ[0] && ret0[1] == ver[0] && ret0[2] == ver[1] && int(ret0[3])*256 + int(ret0[4]) == len(input)
+//@   ensures body: forall i int :: 0 <= i && i < len(input) ==> ret0[5+i] == input[i]
+// composeServerHello: 4 + 118 bytes; type 2, 24-bit length 118, version 3.3, 32-byte random, session id
+// length byte 0x20 and the client's session id echoed at offset 39.
+//@ func composeServerHello
+//@   requires len(sessionId) == 32
+//@   ensures size: len(ret0) == 122
+//@   ensures handshakeHeader: ret0[0] == 2 && ret0[1] == 0 && ret0[2] == 0 && ret0[3] == 118 && ret0[4] == 3 && ret0[5] == 3
+//@   ensures echoesSessionId: ret0[38] == 32 && (forall i int :: 0 <= i && i < 32 ==> ret0[39+i] == sessionId[i])
+//@   loop 0 invariant size: (rangeindex == -1 ==> len(ret) == 0) && (rangeindex == 0 ==> len(ret) == 1) && (rangeindex == 1 ==> len(ret) == 4) && (rangeindex == 2 ==> len(ret) == 6) && (rangeindex == 3 ==> len(ret) == 38) && (rangeindex == 4 ==> len(ret) == 39) && (rangeindex == 5 ==> len(ret) == 71) && (rangeindex == 6 ==> len(ret) == 73) && (rangeindex == 7 ==> len(ret) == 74) && (rangeindex == 8 ==> len(ret) == 76) && (rangeindex == 9 ==> len(ret) == 116) && (rangeindex == 10 ==> len(ret) == 122) && rangeindex <= 10
+//@   loop 0 invariant own: ret == nil || (fresh(ret) && (forall k int :: 0 <= k && k < 11 ==> arrayOf(ret) != arrayOf(serverHello[k])) && arrayOf(ret) != arrayOf(sessionId))
+//@   loop 0 invariant pieces: len(serverHello[0]) == 1 && serverHello[0][0] == 2 && len(serverHello[1]) == 3 && serverHello[1][0] == 0 && serverHello[1][1] == 0 && serverHello[1][2] == 118 && len(serverHello[2]) == 2 && serverHello[2][0] == 3 && serverHello[2][1] == 3 && len(serverHello[4]) == 1 && serverHello[4][0] == 32 && sameSlice(serverHello[5], sessionId)
+//@   loop 0 invariant head: (rangeindex >= 0 ==> ret[0] == 2) && (rangeindex >= 1 ==> ret[1] == 0 && ret[2] == 0 && ret[3] == 118) && (rangeindex >= 2 ==> ret[4] == 3 && ret[5] == 3) && (rangeindex >= 4 ==> ret[38] == 32)
+//@   loop 0 invariant sid: rangeindex >= 5 ==> (forall i int :: 0 <= i && i < 32 ==> ret[39+i] == sessionId[i])
+// composeReply: three records back to back - handshake (ServerHello, 122 bytes), change-cipher-spec (1 byte),
+// application data (the fake certificate) - each with type, version 3.3 and its exact length.
+//@ func composeReply
+//@   requires len(clientHelloSessionId) == 32 && len(cert) >= 1 && len(cert) <= 16640
+//@   ensures size: len(ret0) == 127 + 6 + 5 + len(cert)
+//@   ensures serverHelloRecord: ret0[0] == 22 && ret0[1] == 3 && ret0[2] == 3 && ret0[3] == 0 && ret0[4] == 122 && ret0[5] == 2 && ret0[43] == 32
+//@   ensures echoesSessionId: forall i int :: 0 <= i && i < 32 ==> ret0[44+i] == clientHelloSessionId[i]
+//@   ensures changeCipherSpecRecord: ret0[127] == 20 && ret0[128] == 3 && ret0[129] == 3 && ret0[130] == 0 && ret0[131] == 1 && ret0[132] == 1
+//@   ensures applicationDataRecord: ret0[133] == 23 && ret0[134] == 3 && ret0[135] == 3 && int(ret0[136])*256 + int(ret0[137]) == len(cert)
+// the responder writes exactly that reply; the fake certificate is never empty (no zero-length record)
+//@ func (TLS).makeResponder$1
+//@   requires originalConn != nil && len(clientHelloSessionId) == 32
+//@   atcall composeReply requires certNotEmpty: len(cert) >= 27 && len(cert) <= 68
+//@   flag noframe
